@@ -527,7 +527,48 @@ pub fn find(h: &[u8], n: &[u8]) -> Option<usize> {
 }
 
 /// Check a response against C13: Ok(()) or the list of defects.
+/// Length of the first response of a payload (header block plus the body its Content-Length
+/// announces), when more bytes follow it that start another response: a segment that completes
+/// several pipelined requests may carry their responses back to back.
+pub fn first_response_len(r: &[u8]) -> Option<usize> {
+    let mut i = 0;
+    let mut body_start = None;
+    while i < r.len() {
+        if r[i] == b'\n' {
+            if i + 1 < r.len() && r[i + 1] == b'\n' {
+                body_start = Some(i + 2);
+                break;
+            }
+            if i + 2 < r.len() && r[i + 1] == b'\r' && r[i + 2] == b'\n' {
+                body_start = Some(i + 3);
+                break;
+            }
+        }
+        i += 1;
+    }
+    let body_start = body_start?;
+    let mut clen: Option<usize> = None;
+    for line in r[..body_start].split(|c| *c == b'\n').skip(1) {
+        let line = if line.last() == Some(&b'\r') { &line[..line.len() - 1] } else { line };
+        if line.len() > 15 && line[..15].eq_ignore_ascii_case(b"content-length:") {
+            clen = String::from_utf8_lossy(&line[15..]).trim().parse::<usize>().ok();
+        }
+    }
+    let end = body_start.checked_add(clen?)?;
+    if end < r.len() && r[end..].starts_with(b"HTTP/1.") {
+        Some(end)
+    } else {
+        None
+    }
+}
+
 pub fn check_response(r: &[u8]) -> Vec<(&'static str, String)> {
+    // several responses back to back: each one is judged on its own
+    if let Some(l) = first_response_len(r) {
+        let mut bad = check_response(&r[..l]);
+        bad.extend(check_response(&r[l..]));
+        return bad;
+    }
     let mut bad = Vec::new();
     if !r.starts_with(b"HTTP/1.1 401") {
         bad.push(("status-line", format!("response starts with {:?}", String::from_utf8_lossy(&r[..r.len().min(16)]))));
